@@ -604,7 +604,8 @@ func (w *outputBuffer) emitEligibleFrames(output chan queuedFrame, writerDone ch
 				d.data = d.data[room:]
 				remove = false
 			}
-		} else if f.flowControlSize() > *connectionWindowSize || f.flowControlSize() > w.windowSize {
+		} else if n := f.flowControlSize(); n > 0 && (n > *connectionWindowSize || n > w.windowSize) {
+			// (frames without flow-controlled octets pass even while a window is negative)
 			break
 		}
 		select {
